@@ -327,7 +327,115 @@ def format_rules(V, **params):
     return c02.format_rules(V, **params)
 
 
-FUNCS = {"format_rules": format_rules, "buffering": buffering, "lut": lut, "wbuf": wbuf, "rolling": rolling, "lr_rolling": lr_rolling, "build_twice": build_twice, "memcpy": memcpy, "wbuf_sizes": wbuf_sizes}
+def ifm_fuse(V, kind):
+    """an elementwise (or copy) operation's output may take over the bytes of one of its inputs only when nobody else reads that input: the REAL
+    live_range._get_ifm_to_fuse on a stand-in operation whose inputs' consumer lists (1..3 entries: this operation, another operation, None = the
+    tensor is also an output of the subgraph, read later by somebody outside), write protection, shapes, formats, data types and the number of
+    producers of the output are symbolic and decided lazily (a fork only where the code looks).  Oracle: a tensor is returned only if its
+    consumer list is exactly [this operation], it is not write protected and agrees with the output in shape, format and type."""
+    import ethosu.vela.live_range as lr
+    from ethosu.vela.operation import Op
+    from ethosu.vela.tensor import TensorPurpose, MemArea, MemType
+
+    class O:
+        def __init__(self, **kw):
+            self.__dict__.update(kw)
+
+    this = O(name="this")
+    other = O(name="other")
+    facts = {}
+
+    def flag(name):
+        if name not in facts:
+            facts[name] = V.bool(name)
+        return facts[name]
+
+    class Attr:
+        """an attribute value (format, data type, operator shape) of which only equality with the output's matters"""
+
+        def __init__(self, tag):
+            self.tag = tag
+
+        def __eq__(self, o):
+            if self.tag == "ofm" or o.tag == "ofm":
+                t = o.tag if self.tag == "ofm" else self.tag
+                return flag(t + "_equals_ofm") if t != "ofm" else True
+            raise core.Unmodelled("comparison between two inputs")
+
+        def __ne__(self, o):
+            r = self.__eq__(o)
+            return (not r) if isinstance(r, bool) else ~r
+
+        __hash__ = None
+
+    class Consumers(list):
+        """consumer list materialised on first use"""
+
+        def __init__(self, tag):
+            list.__init__(self)
+            self.tag, self.done = tag, False
+
+        def _mat(self):
+            if not self.done:
+                self.done = True
+                n = V.choice(self.tag + "_nconsumers", [1, 2, 3])
+                for i in range(n):
+                    list.append(self, V.choice("%s_consumer%d" % (self.tag, i), [this, other, None]))
+                if not any(c is this for c in list.__iter__(self)):
+                    raise core.PathAbort("ill-formed graph: an input's consumer list always contains the operation that reads it")
+
+        def __len__(self):
+            self._mat()
+            return list.__len__(self)
+
+        def __iter__(self):
+            self._mat()
+            return list.__iter__(self)
+
+        def __getitem__(self, i):
+            self._mat()
+            return list.__getitem__(self, i)
+
+    class T:
+        def __init__(self, tag):
+            self.name = tag
+            self.purpose, self.mem_area, self.mem_type = TensorPurpose.FeatureMap, MemArea.Sram, MemType.Scratch
+            self.shape = [1, 8, 8, 16]
+            self.format, self.dtype = Attr(tag + "_format"), Attr(tag + "_dtype")
+            self.consumer_list = Consumers(tag)
+
+        @property
+        def ifm_write_protected(self):
+            return flag(self.name + "_write_protected")
+
+    ofm = T("ofm")
+    ofm.format, ofm.dtype = Attr("ofm"), Attr("ofm")
+
+    class Producers(list):
+        def __len__(self):
+            return 2 if flag("ofm_second_producer") else 1
+
+    ofm.ops = Producers([this])
+    ifm = T("ifm")
+    ifm2 = T("ifm2") if kind == "binary" else None
+    this.__dict__.update(ifm=ifm, ifm2=ifm2, ofm=ofm, ifm_shapes=[Attr("ifm_op_shape"), Attr("ifm2_op_shape")], ofm_shapes=[Attr("ofm")], memory_function=None)
+    sop = O(parent_op=this, op_type={"memcpy": Op.Memcpy, "binary": Op.Add, "unary": Op.Abs}[kind])
+    got = lr._get_ifm_to_fuse(sop, MemArea.Sram, {MemType.Scratch})
+    if got is None:
+        return None  # nothing fused: nothing to claim on this path
+    cons = [c for c in got.consumer_list]
+    t = got.name
+    cl = [("the fused tensor is an input of the operation", got is ifm or got is ifm2),
+          ("the fused input has exactly one reader, this operation (a None entry is a reader outside the subgraph)", len(cons) == 1 and cons[0] is this)]
+    if kind != "memcpy":
+        cl += [("the fused input is not write protected", z3.Not(B(flag(t + "_write_protected")))),
+               ("same format as the output", B(flag(t + "_format_equals_ofm"))), ("same data type as the output", B(flag(t + "_dtype_equals_ofm"))),
+               ("same operator shape as the output", B(flag(t + "_op_shape_equals_ofm"))),
+               ("the output has a single producer", z3.Not(B(flag("ofm_second_producer"))))]
+    return cl
+
+
+FUNCS = {"ifm_fuse": ifm_fuse, "format_rules": format_rules, "buffering": buffering, "lut": lut, "wbuf": wbuf, "rolling": rolling, "lr_rolling": lr_rolling, "build_twice": build_twice, "memcpy": memcpy, "wbuf_sizes": wbuf_sizes}
 
 
 def instances(tier, seed):
@@ -335,6 +443,8 @@ def instances(tier, seed):
     for accel in ("Ethos_U55_64", "Ethos_U55_128"):
         for n in (1, 2, 3, 4):
             out.append(dict(key="lut/%s/n%d" % (accel, n), fn="lut", params=dict(accel=accel, n=n), weight=10 ** n))
+    for kind in ("unary", "binary", "memcpy"):
+        out.append(dict(key="ifm_fuse/%s" % kind, fn="ifm_fuse", params=dict(kind=kind), weight=20))
     for nslices in range(1, 8):
         for nbuf in (1, 2):
             out.append(dict(key="wbuf/s%d_b%d" % (nslices, nbuf), fn="wbuf", params=dict(nslices=nslices, nbuf=nbuf)))
